@@ -8,8 +8,25 @@ NOTE = ("Trusted: rustc MIR, Kani's translation, CBMC, CaDiCaL; the hand-written
         "the .puml diagram and README; cross-checked natively against tests/test-data by tools/refcheck); the stubs listed in each evidence file "
         "(fmt::format, fmt::write, flume send, report_error observation). Dev profile semantics. Nothing outside the per-harness bounds is claimed.")
 
+K = "bounded symbolic execution (Kani/CBMC): the solver decides the assertion for every value of the symbolic inputs inside the bounds listed in the evidence file; nothing is claimed outside them. "
 CLAIMED = {
-    "C11": ("All 2^80 values of each status word and all data-word ids x lane masks: the implementation's sanity verdict equals the documented rule. The kernels are decided over their whole input domain; the level stays 'other' (bounded symbolic execution) because the engine is a bounded model checker, not a proof assistant.", "DESIGN.md §2 C11"),
+    "C01": (K + "Conforming words/headers are accepted: the accept-halves of the exact header/word predicates (all 2^512 / 2^80 values), the FSM bisimulation (no allowed sequence is reported) and one inductive step of the composed payload validator per state and word class with a conforming word => zero reports. Whole streams, several links and stave-level checks are outside.", "DESIGN.md §2 C01, §7"),
+    "C02": (K + "Fault catalogue, one documented rule at a time: each broken rule is reported with its documented code family at the offending word's offset (symbolic offset, data format) and running rules are silent under check sanity; exit-status table for all inputs. Simultaneous faults and CLI plumbing are outside.", "DESIGN.md §2 C02, §7"),
+    "C03": (K + "One inductive step of the scanner (load_cdp from an arbitrary position; sizes and filter decisions concrete per instance, all other header/payload bytes symbolic) establishes offset/field/payload truthfulness and the position invariant, which covers chains of any length; offset range and filter predicates for all values. Real files/pipes and the 100-packet batching are outside.", "DESIGN.md §2 C03, §7.2(4)"),
+    "C04": (K + "Unit-level crash freedom in release semantics for the input-facing units that could be encoded (lane checks, FEE ids, RDH validators, chunking, ALPIDE decoder step, truncation). It is NOT a statement about the process: threads, signals, stdout and stave-mode word processing are outside.", "DESIGN.md §2 C04, §7.2(6)"),
+    "C07": (K + "Composition of solver-decided facts: true packet offset and bytes from the scanner step, chunk i = slice at i*slot, every report of a validator step carries offset + 64 + index*slot and quotes exactly the word's bytes, offset formulas for all indices.", "DESIGN.md §2 C07"),
+    "C08": (K + "Header re-serialisation is the identity for all 2^512 headers; the scanner step delivers exactly the matching packets' bytes; match predicates for all values; the writer hands rdh|payload pairs to its sink in order across a threshold flush. Files/stdout/threads are outside.", "DESIGN.md §2 C08"),
+    "C09": (K + "The payload state machine is bisimilar to the documented diagram over all word sequences of length <= 8 from the initial state (all implementation states and edges covered) and for one step from every reachable state; illegal identifiers are reported at the word in every state class.", "DESIGN.md §2 C09"),
+    "C10": (K + "RDH sanity verdict == documented rules for all 2^512 headers (three configurations); running-check verdict == documented automaton for all 3-header histories from an HBF start and one step from an arbitrary checker state (induction over histories).", "DESIGN.md §2 C10"),
+    "C11": (K + "All 2^80 values of each status word and all data-word ids x lane masks: the implementation's sanity verdict equals the documented rule. The kernels are decided over their whole input domain; the level stays 'other' because the engine is a bounded model checker, not a proof assistant.", "DESIGN.md §2 C11"),
+    "C12": (K + "Chunking of every payload of length <= 40 bytes (arbitrary contents) equals the documented cutting, chunks are the slices at i*slot; over-long padding is reported once, skipped and resets the state. Longer payloads are outside (thorough: 64).", "DESIGN.md §2 C12"),
+    "C13": (K + "ALPIDE byte classification for all bytes and one decoder step from an arbitrary decoder state equal a reference that never looks at hit bytes (=> hit-content independence of the decoded chips, flags and counters); lane-count / inner-grouping verdicts. Bunch-counter comparisons (HashMap-based) are outside.", "DESIGN.md §2 C13"),
+    "C14": (K + "Per component: the collector's totals are the sums of the messages and the scanner's messages equal the ground truth of the visited packets (one scanner step). Collection inside the analysis thread, the report and the file are outside.", "DESIGN.md §2 C14"),
+    "C15": (K + "Drift-detection half only: a collector differing from the reference in any ONE collected statistic (each StatType message, each counted trigger bit, ALPIDE flags) is rejected by validate_other_stats in both directions, identical collectors are accepted. JSON/TOML writing and parsing (the round-trip half) are outside.", "DESIGN.md §2 C15"),
+    "C16": (K + "Exit-status table for all (code, flag, configured status); argument validation for all combinations of check kind/target/trigger period/-E; error total == number of collected Error messages. clap, the controller thread and the display filter are outside.", "DESIGN.md §2 C16"),
+    "C18": (K + "One packet followed by arbitrary bytes, input cut in each of the four regions (both ends of each, contents symbolic): complete packet unchanged, cut payload => RDH + exactly one [E100], cut RDH => end of input.", "DESIGN.md §2 C18, §7.2(4)"),
+    "C19": (K + "Decoding kernels of the views only: word offset formula, word type by identifier (== FSM class on allowed sequences), attribute label functions for all inputs. Rows, layout and styled == unstyled are outside.", "DESIGN.md §2 C19"),
+    "C20": (K + "Trigger-period verdict for all bunch crossings and periods incl. wrap-around and its driver ([E45] only between consecutive internal-trigger TDHs); custom count checks [E9001]/[E9002] iff mismatch; configured RDH version. TOML parsing and chip count/order checks are outside.", "DESIGN.md §2 C20"),
 }
 
 NA = {
